@@ -98,6 +98,10 @@ func (e *Engine) typeFact(v *Val, next string) string {
 		if lo, hi, ok := intRange(t); ok {
 			return fmt.Sprintf("(and (<= %s %s) (<= %s %s))", lo, v.S, v.S, hi)
 		}
+		if u.Info()&types.IsString != 0 {
+			// Go: len <= 2^63-1; no object is larger than the address space (2^62 keeps len+len in range)
+			return fmt.Sprintf("(<= (seq.len %s) 4611686018427387904)", v.S)
+		}
 		return "true"
 	case *types.Pointer, *types.Map, *types.Chan, *types.Signature:
 		if next != "" {
@@ -108,7 +112,7 @@ func (e *Engine) typeFact(v *Val, next string) string {
 		return fmt.Sprintf("(and (= (= %s 0) (= (tagof %s) 0)) (>= (tagof %s) 0))", v.S, v.S, v.S)
 	case *types.Slice:
 		if isByte(u.Elem()) {
-			return "true"
+			return fmt.Sprintf("(<= (seq.len %s) 4611686018427387904)", v.S)
 		}
 		return sliceWF(v.S, next)
 	case *types.Array:
@@ -300,6 +304,7 @@ func (fr *Frame) toIface(s *State, v *Val, to types.Type) *Val {
 	term := fmt.Sprintf("(%s %d %s)", box, id, v.S)
 	name := fr.vc.define("ifc", "Int", term)
 	s.assume(fmt.Sprintf("(and (= (tagof %s) %d) (= (%s %s) %s) (> %s 0))", name, id, unbox, name, v.S, name))
+	fr.hashableFact(s, t, id)
 	return &Val{T: to, S: name}
 }
 
@@ -321,4 +326,28 @@ func (fr *Frame) convertTo(s *State, v *Val, t types.Type) *Val {
 		return v
 	}
 	return &Val{T: t, S: v.S, Fn: v.Fn, Const: v.Const}
+}
+
+// havocEverything forgets the whole heap and all mutable globals; global invariants hold again afterwards
+// (they are assumed at every call boundary).
+func (fr *Frame) havocEverything(s *State) {
+	s.havocAll()
+	fr.assumeGlobalInvs(s)
+}
+
+func (fr *Frame) assumeGlobalInvs(s *State) {
+	for _, gi := range fr.eng.globalInvs {
+		pp := fr.eng.pkgs[gi.Pkg]
+		if pp == nil || pp.Types == nil {
+			continue
+		}
+		env := &SpecEnv{eng: fr.eng, vc: fr.vc, s: s, old: s, names: map[string]*Val{}, pkg: pp.Types, fr: fr}
+		t := env.evalBool(gi.C.E)
+		if env.err != nil {
+			fr.vc.failed = fmt.Errorf("global-inv %q: %v", gi.C.Text, env.err)
+			return
+		}
+		fr.eng.assumptions["global invariant assumed at every call boundary ("+shortKey(gi.Pkg)+"): "+gi.C.Text] = true
+		s.assume(t)
+	}
 }
